@@ -465,6 +465,13 @@ def defuse(rc):
     from . import shared as _sh
     _sh.defuse_rule(rc, _sh.anchor_files("C19"))
 
+
+@rule("C19.data", "preprocess_data (run in front of every estimator, score and CI test) hands on the caller's values: copy, column-wise value-preserving casts", floor=2)
+def data_(rc):
+    from . import shared as _sh
+    _sh.preprocess_rule(rc)
+
+
 MUTANTS = [
     dict(kind="break", name="unconditional-table-counts-unobserved-categories", file=CI, expect="C19.pooled",
          old="data.groupby([X, Y], observed=True).size().unstack(Y, fill_value=0)", new="data.groupby([X, Y], observed=False).size().unstack(Y, fill_value=0)"),
